@@ -3,7 +3,7 @@
    machine the real VM is, and C11's decode_encode connects it to instruction lists.  Frames are structured
    (locals + operand stack) instead of one flat array; that is an abstraction the run correspondence checks.
    Arithmetic is 64-bit two's complement (what the hardware does for the C's signed +,-,*; INT64_MIN / -1 is a
-   distinguished Signal outcome).  Definitions only. *)
+   distinguished Signal outcome kept in the type for the proofs; the VM itself now wraps).  Definitions only. *)
 From Coq Require Import ZArith NArith List Bool.
 From NV Require Import Base.Bytes Isa.Codec gen.IsaTable Lang.Ast Back.VmCompile.
 Import ListNotations.
@@ -90,9 +90,11 @@ Definition arith (o : N) (x y : Z) : option Z :=      (* None = fatal signal *)
   else if N.eqb o OP_SUB then Some (wrap64 (x - y))
   else if N.eqb o OP_MUL then Some (wrap64 (x * y))
   else if N.eqb o OP_DIV then
-    (if Z.eqb y 0 then Some 0%Z else if Z.eqb x (-9223372036854775808) && Z.eqb y (-1) then None else Some (Z.quot x y))
-  else (* OP_MOD *)
-    (if Z.eqb y 0 then Some 0%Z else if Z.eqb x (-9223372036854775808) && Z.eqb y (-1) then None else Some (Z.rem x y)).
+    (* vm_i64_div: x / 0 = 0, INT64_MIN / -1 wraps (quotient INT64_MIN) *)
+    (if Z.eqb y 0 then Some 0%Z else if Z.eqb x (-9223372036854775808) && Z.eqb y (-1) then Some (-9223372036854775808)%Z
+     else Some (Z.quot x y))           (* for every other int64 x, x / -1 = -x = Z.quot x (-1) *)
+  else (* OP_MOD: vm_i64_mod: x % 0 = 0, x % -1 = 0 = Z.rem x (-1) *)
+    (if Z.eqb y 0 then Some 0%Z else if Z.eqb x (-9223372036854775808) && Z.eqb y (-1) then Some 0%Z else Some (Z.rem x y)).
 
 Definition jump_target (start : nat) (rel : N) : nat := Z.to_nat (Z.of_nat start + to_signed 32 rel).
 
@@ -236,9 +238,9 @@ Definition step (s : mstate) : mres :=
       else if N.eqb o OP_ARR_GET then
         match st with
         | MInt k :: MArr l :: r =>
-            (* index is cast to uint32_t; out of range yields void (vm_array_get) *)
-            let k32 := Z.to_nat (k mod 4294967296) in
-            MNext (with_stack s1 (nth k32 l MVoid :: r))
+            (* the 64-bit index is range-checked before it is narrowed; out of range stops the run *)
+            if (Z.leb 0 k && Z.ltb k (Z.of_nat (length l)))%bool then MNext (with_stack s1 (nth (Z.to_nat k) l MVoid :: r))
+            else MErr EOob (ms_out s)
         | _ :: _ :: _ => MErr EType (ms_out s)
         | _ => MErr EStack (ms_out s) end
       else MErr EUnsupported (ms_out s)
